@@ -205,6 +205,7 @@ def register(ctx, rows, counts):
         if r.get("kind") != "bad":
             continue
         key = classify(r)
+        r["seed"] = ctx.seed
         st = ctx.disagreement(key, r, describe(r))
         sig_status[r["sig"]] = (key, st)
         counts[key or "unclassified"] = counts.get(key or "unclassified", 0) + 1
@@ -215,17 +216,80 @@ def register(ctx, rows, counts):
 
 
 # ------------------------------------------------------------- direction B
-def trace(ctx, opts):
+def lkey(ls):
+    return ",".join(sorted("%s/%d/%d/%s" % tuple(l) for l in ls))
+
+
+def run_histories(ctx, recs):
+    """Replays histories on fresh servers; returns one result row per record."""
+    vin, vout = ctx.path("c10_replay_in.ndjson"), ctx.path("c10_replay_out.ndjson")
+    vlib.write_ndjson(vin, recs)
+    rc, out = ctx.go_test(PKG, FILES, "^TestZZVerifC10Replay$",
+                          env={"VERIF_IN": vin, "VERIF_OUT": vout, "VERIF_TMP": scratch(ctx)}, timeout=900)
+    rows = vlib.read_ndjson(vout)
+    if rc != 0 or len(rows) != len(recs):
+        raise vlib.Inconclusive("C10 replay harness did not complete:\n" + out[-3000:])
+    return rows
+
+
+def trace(ctx, opts, counts):
     vin, vout = ctx.path("c10_trace_in.ndjson"), ctx.path("c10_trace.ndjson")
-    tmp = scratch(ctx)
     with open(vin, "w") as fh:
         fh.write(json.dumps({"univ": TRACE_UNIV, "opts": opts}) + "\n")
     rc, out = ctx.go_test(PKG, FILES, "^TestZZVerifC10Trace$",
-                          env={"VERIF_IN": vin, "VERIF_OUT": vout, "VERIF_TMP": tmp}, timeout=900)
+                          env={"VERIF_IN": vin, "VERIF_OUT": vout, "VERIF_TMP": scratch(ctx)}, timeout=900)
     rows = vlib.read_ndjson(vout)
     if rc != 0 or not rows:
         raise vlib.Inconclusive("C10 trace driver did not complete:\n" + out[-3000:])
-    return rows
+    tfile = ctx.path("c10_trace_full.ndjson")
+    vlib.write_ndjson(tfile, [dict(TRACE_UNIV, hdr=True)] + rows)
+    r = ctx.tlc("TraceDhcp4", "TraceDhcp4.cfg", workers=1, extra_files=[(tfile, "trace.ndjson")], timeout=900)
+    if not r["vectors"]:
+        raise vlib.Inconclusive("trace spec produced no verdict")
+    verdict = r["vectors"][-1]
+    if verdict["n"] != len(rows) + 1:
+        raise vlib.Inconclusive("trace spec consumed %s of %d lines" % (verdict["n"], len(rows) + 1))
+    # Rejected lines -> records of the walker's shape, reproduced in isolation.
+    recs = []
+    for b in sorted(verdict["bad"], key=lambda x: x["l"]):
+        i = b["l"] - 2
+        t = rows[i]
+        j = i
+        while not rows[j]["reset"]:
+            j -= 1
+        want = [{"Same": w[0], "Dst": lkey(w[1]), "K": w[2], "IP": w[3]} for w in b["want"]]
+        recs.append({"kind": "bad", "act": t["act"], "src": t["src"], "srcdisk": t["srcdisk"], "srcprob": t["srcprob"],
+                     "want": want, "why": b["why"], "reply": t["out"],
+                     "post": {"ls": t["dst"], "disk": t["disk"], "prob": t["prob"]},
+                     "history": [x["act"] for x in rows[j:i + 1]], "univ": TRACE_UNIV, "seed": ctx.seed,
+                     "trace_line": b["l"], "sig": "trace|%s|%s|%s" % (t["act"]["act"], b["why"], ";".join(t["prob"]))})
+    per_sig = {}
+    todo = []
+    for rec in recs:
+        n = per_sig[rec["sig"]] = per_sig.get(rec["sig"], 0) + 1
+        if n <= 3:
+            todo.append(rec)
+    flaky = 0
+    if todo:
+        res = run_histories(ctx, [{"univ": TRACE_UNIV, "history": x["history"], "seed": ctx.seed} for x in todo])
+        for rec, got in zip(todo, res):
+            same = got.get("kind") == "replayed" and got["reply"] == rec["reply"] and \
+                lkey(got["post"]["ls"]) == lkey(rec["post"]["ls"]) and got["post"]["prob"] == rec["post"]["prob"]
+            rec["reproduced"] = bool(same)
+            if not same:
+                flaky += 1
+    status = {}
+    for rec in recs:
+        if rec.get("reproduced") is False:
+            continue
+        key = classify(rec)
+        if "reproduced" in rec:
+            ctx.disagreement(key, rec, "trace line %d rejected by TraceDhcp4: %s" % (rec["trace_line"], describe(rec)))
+            status[rec["sig"]] = key
+        else:
+            key = key or status.get(rec["sig"])
+        counts[key or "unclassified"] = counts.get(key or "unclassified", 0) + 1
+    return rows, recs, flaky
 
 
 def run(ctx):
@@ -239,27 +303,120 @@ def run1(ctx):
     T = TIERS[ctx.tier]
     univ = parse_cfg(T["cfg"])
     ctx.sany("Dhcp4")
+    ctx.sany("TraceDhcp4")
+    # Half 1 + emission: all histories over the small universe.
     mc = ctx.tlc("Dhcp4", T["cfg"], workers=T["tlc_workers"], timeout=900, coverage=True)
     vectors = mc["vectors"]
     if len(vectors) != mc["distinct"] or not vectors:
         raise vlib.Inconclusive("emitted %d state lines for %d distinct states" % (len(vectors), mc["distinct"]))
+    vac = vacuity(mc, vectors)
+    if vac:
+        raise vlib.Inconclusive("vacuous: " + vac)
+    # Direction A.
     opts = dict(order=T["order"], workers=T["workers"], deadline_s=T["deadline_s"], resetevery=400, maxrepro=3)
     rows, summ = walk(ctx, vectors, univ, opts)
     counts = {}
     register(ctx, rows, counts)
+    if summ["steps"] < 1000 or summ["nontrivial"] < 100:
+        raise vlib.Inconclusive("walker did too little: %s" % {k: summ[k] for k in ("steps", "nontrivial")})
+    # Direction B.
+    trows, trecs, tflaky = trace(ctx, dict(traceruns=T["traceruns"], tracesteps=T["tracesteps"]), counts)
+    flaky = summ["flaky"] + tflaky
+    if flaky > 5:
+        raise vlib.Inconclusive("%d disagreements did not reproduce in isolation" % flaky)
     cov = {
-        "traces_validated_against_impl": summ["steps"],
-        "evaluations": summ["steps"], "distinct_nontrivial": summ["nontrivial"],
-        "rule": "one evaluation = one action executed on the real server and looked up in the spec's outcome set; "
-                "non-trivial = distinct (state, action) pairs whose execution changed the table",
+        "traces_validated_against_impl": summ["steps"] + len(trows),
+        "evaluations": summ["steps"] + len(trows), "distinct_nontrivial": summ["nontrivial"],
+        "rule": "one evaluation = one action executed on the real server and judged by the spec's outcome set "
+                "(direction A: looked up in TLC's emission; direction B: decided by TLC on the recorded line); "
+                "non-trivial = distinct (abstract state, action instance) pairs whose execution changed the table",
+        "universe": univ, "trace_universe": TRACE_UNIV,
         "walker": {k: summ[k] for k in summ if k not in ("kind", "samples")},
+        "code_reachable_states": summ["abstract_states"], "spec_states": summ["spec_states"],
+        "trace_lines": len(trows), "trace_lines_rejected": len(trecs), "trace_runs": T["traceruns"],
         "disagreements_by_key": counts,
+        "truncated_by_known_finding": summ["truncated"] + sum(1 for t in trows[1:] if t["reset"] and t["step"] > 0),
+        "not_reproduced": flaky,
         "exhaustive": bool(summ["closed"]),
-        "samples": summ.get("samples", [])[:4],
+        "samples": (summ.get("samples") or [])[:3] + [{"trace_line": trows[len(trows) // 2]}],
     }
-    return ctx.finish("model_checking", cov, assumptions=[])
+    return ctx.finish("model_checking", cov, assumptions=[
+        "TLC; conc()/abs() of zz_verif_c10_test.go (address, MAC and host-name tables; acknowledged = Expiry after now)",
+        "lease expiry is simulated by setting Lease.Expiry of the chosen lease to a past instant and storing the database",
+        "packets enter at v4Server.packetHandler (wire format, fake PacketConn), static leases at the HTTP handlers, "
+        "restart = dhcpd.Create on the same data directory; ICMP conflict detection is off (no blocklisted leases)",
+        "exhaustive = every action instance was executed in every abstract state the real server reached "
+        "(states are discovered by the walk itself; states only reachable through a reported disagreement are not entered)"])
+
+
+def vacuity(mc, vectors):
+    """Every action of the spec must have been taken and must have had an effect."""
+    seen = {}
+    for v in vectors:
+        for e in v["e"]:
+            changing = any(not o[0] for o in e[5])
+            seen[e[0]] = seen.get(e[0], False) or changing
+    need = ["Discover", "Request", "Decline", "Release", "Expire", "AddStatic", "UpdateStatic", "RemoveStatic"]
+    missing = [a for a in need if not seen.get(a)]
+    if missing:
+        return "actions never change the table: %s" % missing
+    if "Restart" not in seen:
+        return "Restart never emitted"
+    zero = [z for z in mc.get("zero_cov", []) if "Dhcp4" in z]
+    out = mc["out"]
+    acts = re.findall(r"^<(\w+) line \d+, col \d+ to line \d+, col \d+ of module Dhcp4>: (\d+):(\d+)", out, re.M)
+    never = [a for a, d, g in acts if int(g) == 0 and a not in ("Init",)]
+    if never:
+        return "actions never taken according to TLC coverage: %s" % never
+    return None
+
+
+DEFAULTS = {"Discover": ["none"], "Request": ["refuse"], "Decline": ["any"], "Release": ["any"],
+            "AddStatic": ["err"], "UpdateStatic": ["err"], "RemoveStatic": ["err", "ok"]}
+
+
+def admitted(rec, got):
+    """The judgement of the Go walker, on a replayed step and the outcome set stored with the record."""
+    a = rec["act"]
+    srckey = lkey(got["src"])
+    want = rec.get("want") or [{"Same": True, "Dst": "", "K": k, "IP": 0} for k in DEFAULTS.get(a["act"], [])]
+    post, r = got["post"], got["reply"]
+    if set(post["prob"]) - set(got.get("srcprob") or []):
+        return False
+    for o in want:
+        if (srckey if o["Same"] else o["Dst"]) != lkey(post["ls"]):
+            continue
+        k = o["K"]
+        if k in ("offer", "ack"):
+            ok = r["k"] == k and r["ip"] == o["IP"]
+        elif k == "refuse":
+            ok = r["k"] in ("none", "nak")
+        elif k == "any":
+            ok = r["ip"] == 0 or any(l[0] == a["m"] and l[1] == r["ip"] for l in post["ls"])
+        elif k in ("ok", "err"):
+            ok = r["k"] == k
+        else:
+            ok = r["k"] == "-"
+        if ok:
+            return True
+    return False
 
 
 def replay(ctx, path):
-    rec = json.load(open(path))["record"]
-    return 2
+    try:
+        rec = json.load(open(path))["record"]
+        got = run_histories(ctx, [{"univ": rec["univ"], "history": rec["history"], "seed": rec.get("seed", ctx.seed)}])[0]
+        if got.get("kind") != "replayed":
+            print(json.dumps(got))
+            return 2
+        same = got["reply"] == rec["reply"] and lkey(got["post"]["ls"]) == lkey(rec["post"]["ls"]) \
+            and got["post"]["prob"] == rec["post"]["prob"]
+        ok = admitted(rec, got)
+        print(json.dumps({"action": rec["act"], "from": rec["src"],
+                          "expected_one_of": rec.get("want") or "refused, table unchanged",
+                          "observed": {"reply": got["reply"], "table": got["post"]["ls"], "disk": got["post"]["disk"],
+                                       "structures": got["post"]["prob"]},
+                          "same_as_recorded": same, "admitted_by_spec": ok}, indent=1))
+        return 0 if ok else 1
+    finally:
+        cleanup(ctx)
